@@ -4,7 +4,7 @@ carry current; (b) every tree of the mid alphabet with rails, groups, by-rail at
 with every priority permutation; (d) the version gate menu.  Oracle: all reports of S and of from_file(save(S)) are equal (keyed, exact)."""
 import itertools, copy, json, os, shutil
 from ..common import Run, Res, seed, quiet_call, VERIF
-from ..sysmodel import (Trees, SIG_MID, spec_from_forest, with_phases, PH2, build, LOADS, PHASE_LIST_KINDS, pc_options)
+from ..sysmodel import (Trees, SIG_MID, spec_from_forest, with_phases, PH2, build, build_holes, LOADS, PHASE_LIST_KINDS, pc_options)
 from ..muxsys import mux_spec, INPUT_OPTS
 from ..reports import all_reports, diff_reports, save_doc
 from .c13 import SCHEMA
@@ -78,8 +78,10 @@ def check_case(case):
         spec = mux_spec([tuple(x) for x in case["inputs"]], case["pal"], case["rs_list"], rails=case["rails"], by_rail=case["rails"], order=case["order"])
     elif fam == "version":
         spec = kind_spec("Converter", dict(vo=3.3, eff=0.9), True)
-    s = build(spec)
+    s = build_holes(spec) if case.get("holes") else build(spec)
     res.stats["transitions"] += len(spec["comps"]) + 2
+    if case.get("holes"):
+        res.classes.add("edited-system")
     if fam == "version":
         doc, path = save_doc(s, "v")
         cur = [int(x) for x in sysloss.__version__.split(".")[:3]]
@@ -148,6 +150,8 @@ def gen_cases(tier):
         for f in mid.iter_forests(n):
             for variant in (0, 1, 2, 3):
                 yield dict(fam="tree", f=f, pal=pal, variant=variant, pol=-1 if variant == 3 else 1)
+            # the same structure reached through an edit history that frees and re-uses node indices (save() walks the graph by index)
+            yield dict(fam="tree", f=f, pal=pal, variant=0, pol=1, holes=True)
     if tier == "quick":
         for f in itertools.islice(mid.iter_forests(3), 0, None, 5):
             yield dict(fam="tree", f=f, pal=pal, variant=1)
@@ -172,12 +176,12 @@ def main(tier):
         run.map(check_case, gen_cases(tier), chunk=8, family="roundtrip")
     finally:
         shutil.rmtree(os.path.join(VERIF, ".work"), ignore_errors=True)
-    for c in ("kind", "tree", "mux", "version:newer-patch:ValueError", "version:same:loaded"):
+    for c in ("kind", "tree", "mux", "edited-system", "version:newer-patch:ValueError", "version:same:loaded"):
         run.require(c in run.classes, "class %s never observed" % c)
     return run.finish(
         rule="(a) for each of the 11 kinds every subset of optional constructor parameters x every mandatory-value form, and every alternative form (list / 1-D / 2-D table / negative / integer) "
              "of each optional parameter, in a 2-phase probe system in which the element sleeps or changes value so that every parameter moves a solved cell; applicable limits, a group and a rail "
              "with a child attached through the rail; (b) every tree of the mid alphabet n<=2 (3 thorough; every 5th n=3 tree in quick) x 4 decorations (rails, by-rail attachment, groups, "
-             "limits, phase configurations, negative polarity); (c) every 2- and 3-input PMux tuple x EVERY permutation of the priority order; (d) version gate: same / older / newer in "
+             "limits, phase configurations, negative polarity) and once reached through an edit history with freed / re-used node indices; (c) every 2- and 3-input PMux tuple x EVERY permutation of the priority order; (d) version gate: same / older / newer in "
              "patch, minor, major. Oracle: solve(energy=True), rail_rep(), params(limits=True), phases(), tree() of S and of from_file(save(S)) equal (keyed, exact); save o load o save is a fixed point.",
         assumptions=["only applicable limits are configured (save() writes the applicable subset by design)", "one palette per run"])
